@@ -91,6 +91,16 @@ def bad(k):
     return {"x": "bad", "k": k}
 
 
+def attrsx(n):
+    """attrs['n']: static attribute of the innermost element"""
+    return {"x": "attrs", "n": n}
+
+
+def Code(n, e):
+    """<?python n = e ?>"""
+    return {"k": "code", "n": n, "e": e}
+
+
 def repv(n, f):
     return {"x": "rep", "n": n, "f": f}
 
@@ -110,8 +120,9 @@ def Open(tag="el", define=(), sw=NOE, cs=NOE, cond=NOE, rep=None, sub=None, omit
         else {"m": "no", "g": False, "n": "", "ns": [], "e": NOE},
         "sub": {"m": sub[0], "s": bool(sub[1]), "e": sub[2]} if sub else {"m": "none", "s": False, "e": NOE},
         "omit": ({"m": "yes", "e": NOE} if omit is True else {"m": "expr", "e": omit}) if omit is not None else {"m": "no", "e": NOE},
-        "sattr": [({"n": n, "key": n.lower()} if isinstance(n, str) else
-                   {"n": n[0], "key": n[0].lower(), "lex": n[1]}) for n in sattr],
+        "sattr": [({"n": n, "key": n.lower(), "val": S("v%d" % j)} if isinstance(n, str) else
+                   {"n": n[0], "key": n[0].lower(), "lex": n[1], "val": S(n[1].get("v", "v%d" % j))})
+                  for j, n in enumerate(sattr, 1)],
         "dattr": [{"n": n, "key": n.lower(), "e": e, "d": n == "", "b": n in bools} for n, e in dattr],
         "oe": {"m": "yes", "s": bool(oe[0]), "e": oe[1]} if oe else {"m": "no", "s": False, "e": NOE},
     }
